@@ -46,6 +46,7 @@ LEVEL_TEXT = ("exploration: every n in 1..200 on [-1,1] enumerated; other interv
 
 LD = np.longdouble
 _RULES = {}
+FLOOR = 1e-290      # absolute floor of every tolerance: float64 products below ~1e-308 round absolutely
 
 
 # --------------------------------------------------------------------------- reference rule
@@ -299,7 +300,7 @@ def check_exact(case, ctx):
     err = float(abs(got - exact))
     require(np.isfinite(err), "rule sum is not finite for n=%d on [%r,%r]", n, a, b)
     bound_hi = sum(abs(c) for c in coef)          # >= max|p| on [a,b] since |P_k| <= 1
-    tol = 1e-9 * float(abs(lb - la)) * bound_hi
+    tol = 1e-9 * float(abs(lb - la)) * bound_hi + FLOOR
     require(err <= tol, "degree-%d polynomial (n=%d, [%r,%r]) integrated with error %.3g > 1e-9(b-a)sum|c| = %.3g",
             len(coef) - 1, n, a, b, err, tol)
     # max|p| lies between a sampled maximum and sum|c|: count the cases the weaker bound cannot decide
@@ -405,7 +406,7 @@ def check_func(case, ctx):
         got = must(must(ei.QGauss).integrate, rng, f, npts=n)
     require(np.ndim(got) == 0, "integrate returned a non-scalar %r", type(got))
     ref, ymax = _ref_func_integral(n, a, b, f)
-    tol = 1e-9 * abs(b - a) * ymax
+    tol = 1e-9 * abs(b - a) * ymax + FLOOR
     err = float(abs(LD(got) - ref))
     require(err <= tol, "%s(%s, n=%d) on [%r,%r] = %r, reference weighted sum %r (diff %.3g > %.3g)",
             call, case["f"]["name"], n, a, b, float(got), float(ref), err, tol)
@@ -477,7 +478,7 @@ def check_data(case, ctx):
     require(np.ndim(got) == 0, "integrate returned a non-scalar %r", type(got))
     require(np.array_equal(xs, x0) and np.array_equal(ys, y0), "integrate_data modified its inputs")
     ref = _ref_data_integral(n, case["x"], case["y"])
-    tol = 1e-9 * float(xs[-1] - xs[0]) * float(np.max(np.abs(ys)))
+    tol = 1e-9 * float(xs[-1] - xs[0]) * float(np.max(np.abs(ys))) + FLOOR
     err = float(abs(LD(got) - ref))
     require(err <= tol, "%s over a %d-point table with n=%d = %r, reference %r (diff %.3g > %.3g)",
             call, xs.size, n, float(got), float(ref), err, tol)
@@ -539,10 +540,10 @@ def check_history(case, ctx):
                 step, op["npts"], cur, float(got), cur, float(fresh))
         if op["kind"] == "func":
             ref, ymax = _ref_func_integral(cur, op["a"], op["b"], args[1])
-            tol = 1e-9 * abs(op["b"] - op["a"]) * ymax
+            tol = 1e-9 * abs(op["b"] - op["a"]) * ymax + FLOOR
         else:
             ref = _ref_data_integral(cur, op["x"], op["y"])
-            tol = 1e-9 * (op["x"][-1] - op["x"][0]) * max(abs(v) for v in op["y"])
+            tol = 1e-9 * (op["x"][-1] - op["x"][0]) * max(abs(v) for v in op["y"]) + FLOOR
         err = float(abs(LD(got) - ref))
         require(err <= tol, "step %d (effective npts %d): result %r differs from the reference %r by %.3g > %.3g",
                 step, cur, float(got), float(ref), err, tol)
@@ -619,7 +620,7 @@ def check_gauss2d(case, ctx):
     ref = (z * wx[np.newaxis, :] * wy[:, np.newaxis]).sum()
     gx, gy = LD(ax) + (LD(bx) - LD(ax)) * _GRID[::4], LD(ay) + (LD(by) - LD(ay)) * _GRID[::4]
     zg = f(gx[np.newaxis, :] + 0 * gy[:, np.newaxis], gy[:, np.newaxis] + 0 * gx[np.newaxis, :])
-    tol = 1e-9 * abs(bx - ax) * abs(by - ay) * max(float(np.max(np.abs(z))), float(np.max(np.abs(zg))))
+    tol = 1e-9 * abs(bx - ax) * abs(by - ay) * max(float(np.max(np.abs(z))), float(np.max(np.abs(zg)))) + FLOOR
     err = float(abs(LD(got) - ref))
     require(err <= tol, "QGauss2(%d,%d).integrate_func(%s) = %r, tensor-product reference %r (diff %.3g > %.3g)",
             nx, ny, sp["name"], float(got), float(ref), err, tol)
